@@ -113,6 +113,41 @@ class Space3(c01.Space):
                 p = list(base)
                 p[k] = '.U.'
                 yield case('undeclared-enum-item', tk + ':U-for-boolean', mk(p), k)
+            if r[0] == 'enum':
+                # an undeclared item that abbreviates or extends a declared one is as undeclared as any other
+                it0 = r[1][0].upper()
+                for what, lit in (('prefix', '.%s.' % it0[:-1]), ('first-letter', '.%s.' % it0[:1]), ('extended', '.%sX.' % it0), ('prefix-of-last', '.%s.' % r[1][-1].upper()[:2])):
+                    p = list(base)
+                    p[k] = lit
+                    yield case('undeclared-enum-item', tk + ':' + what, mk(p), k)
+            if r[0] == 'select':
+                # an enumeration member of the select, spelled with its type name
+                types, ents_ = s.tmap()
+                def enum_members(ms):
+                    for m in ms:
+                        if m in types:
+                            rr = s.resolve(smodel.Named(m))
+                            if rr[0] == 'enum':
+                                yield m, rr[1]
+                            elif rr[0] == 'select':
+                                for x in enum_members(rr[1]):
+                                    yield x
+                for m, items in enum_members(r[1]):
+                    for what, lit in (('undeclared', '%s(.PURPLE.)' % m.upper()), ('prefix', '%s(.%s.)' % (m.upper(), items[0].upper()[:-1]))):
+                        p = list(base)
+                        p[k] = lit
+                        yield case('undeclared-enum-item', tk + ':in-select:' + what, mk(p), k)
+            if r[0] == 'aggr' and s.resolve(r[1].elem)[0] == 'enum':
+                items = s.resolve(r[1].elem)[1]
+                egood = '.%s.' % items[0].upper()
+                en = (r[1].hi - r[1].lo + 1) if r[1].kind == 'ARRAY' else 2
+                for what, lit in (('undeclared', '.PURPLE.'), ('prefix', '.%s.' % items[0].upper()[:-1])):
+                    for pos in sorted({0, en - 1}):
+                        el = [egood] * en
+                        el[pos] = lit
+                        p = list(base)
+                        p[k] = '(%s)' % ','.join(el)
+                        yield case('undeclared-enum-item', tk + ':element:' + what, mk(p), k)
             # missing required aggregate
             if r[0] == 'aggr' and not a.optional:
                 p = list(base)
